@@ -387,10 +387,21 @@ func runC15(c *Ctx, idx int, o *Obs) {
 		}
 		wText := watched.Newick()
 		wModel := modelOf(watched)
+		// when the watched twin's indexes describe it now, they must go on doing so whatever happens to the other one
+		wIndexed := indexMonitor(&Obs{}, watched, "")
+		if wIndexed {
+			o.Ev("watched_twin_indexed", 1)
+		}
 		steps := 4 + r.Intn(12)
 		succ := 0
 		for s := 0; s < steps; s++ {
 			o.Sample = Trunc(text, 1200) + " :: " + kind + ", " + dir + " :: " + Trunc(strings.Join(h.log, " ; "), 2000)
+			// one history in four starts with: tips renamed, then the indexes refreshed step by step in place
+			if wIndexed && idx%4 == 1 && s < 2 {
+				h.only, h.forceKeep = map[string]bool{[]string{"Rename", "RefreshIndexesPiecewise"}[s]: true}, true
+			} else {
+				h.only, h.forceKeep = nil, false
+			}
 			name, desc, ok := h.step()
 			if name == "" {
 				break
@@ -414,6 +425,13 @@ func runC15(c *Ctx, idx int, o *Obs) {
 			if d := ref.Diff(wModel.Root, modelOf(watched).Root, "root", true); d != "" {
 				o.Fail("twin_changed", d, inp)
 				break
+			}
+			if wIndexed {
+				before := len(o.Viols)
+				if indexMonitor(o, watched, inp); len(o.Viols) > before {
+					o.Viols[len(o.Viols)-1].Kind = "twin_index_changed"
+					break
+				}
 			}
 		}
 		o.SetFP(text, kind, dir, strings.Join(h.log, ";"))
